@@ -14,14 +14,14 @@ import (
 // reports can be opened through the same filtered view and yields its bytes, and a file the walk
 // hides cannot be opened.
 func VH_C11_open() {
-	t := symTree10()
-	incS, excS := choosePatterns("inc", v.Param("NI", 1)), choosePatterns("exc", v.Param("NE", 1))
-	var inc, exc []refPattern
+	t := vh_symTree10()
+	incS, excS := vh_choosePatterns("inc", v.Param("NI", 1)), vh_choosePatterns("exc", v.Param("NE", 1))
+	var inc, exc []vh_refPattern
 	for _, p := range incS {
-		inc = append(inc, parseRef(p))
+		inc = append(inc, vh_parseRef(p))
 	}
 	for _, p := range excS {
-		exc = append(exc, parseRef(p))
+		exc = append(exc, vh_parseRef(p))
 	}
 	ffs, err := NewFilterFS(t, &FilterOpt{IncludePatterns: incS, ExcludePatterns: excS})
 	if err != nil {
@@ -40,7 +40,7 @@ func VH_C11_open() {
 		return nil
 	})
 	v.Assert(err == nil, "filtered walk succeeds")
-	naive, incr := refSelect(t, inc, exc, false), refSelect(t, inc, exc, true)
+	naive, incr := vh_refSelect(t, inc, exc, false), vh_refSelect(t, inc, exc, true)
 	refsDiffer := false
 	for i := range naive {
 		refsDiffer = v.Or(refsDiffer, naive[i] != incr[i])
@@ -74,12 +74,12 @@ func VH_C11_open() {
 
 // hidingFS hides a solver-chosen subset of the entries of the view below it (what an
 // include/exclude filter does from the point of view of the hard-link reset).
-type hidingFS struct {
+type vh_hidingFS struct {
 	fs     FS
 	hidden map[string]bool
 }
 
-func (h *hidingFS) Walk(ctx context.Context, target string, fn gofs.WalkDirFunc) error {
+func (h *vh_hidingFS) Walk(ctx context.Context, target string, fn gofs.WalkDirFunc) error {
 	return h.fs.Walk(ctx, target, func(p string, d gofs.DirEntry, err error) error {
 		if err == nil && h.hidden[p] {
 			return nil
@@ -87,7 +87,7 @@ func (h *hidingFS) Walk(ctx context.Context, target string, fn gofs.WalkDirFunc)
 		return fn(p, d, err)
 	})
 }
-func (h *hidingFS) Open(p string) (io.ReadCloser, error) { return h.fs.Open(p) }
+func (h *vh_hidingFS) Open(p string) (io.ReadCloser, error) { return h.fs.Open(p) }
 
 // VH_C11_hardlinks: a well-formed view (links name the first member of their group in walk order)
 // from which a filter hides an arbitrary subset, passed through WithHardlinkReset: the result is
@@ -96,13 +96,13 @@ func (h *hidingFS) Open(p string) (io.ReadCloser, error) { return h.fs.Open(p) }
 func VH_C11_hardlinks() {
 	paths := []string{"a", "b", "d", "d/e", "f"}
 	isDir := map[string]bool{"d": true}
-	t := &treeFS{}
+	t := &vh_treeFS{}
 	group := map[string]int{}
 	firstOf := map[int]string{}
 	modeOf := map[int]uint32{}
 	ng := 0
 	for _, p := range paths {
-		e := &treeEnt{path: p, isDir: isDir[p]}
+		e := &vh_treeEnt{path: p, isDir: isDir[p]}
 		if !e.isDir {
 			g := v.Choose("group", ng+1) // join an existing group or start a new one
 			if g == ng {
@@ -137,7 +137,7 @@ func VH_C11_hardlinks() {
 			v.Cover("hidden")
 		}
 	}
-	view := WithHardlinkReset(&hidingFS{fs: t, hidden: hidden})
+	view := WithHardlinkReset(&vh_hidingFS{fs: t, hidden: hidden})
 	var ov Validator
 	var hv Hardlinks
 	firstVisible := map[int]string{}
@@ -194,12 +194,12 @@ func VH_C11_hardlinks() {
 func VH_C11_send() {
 	paths := []string{".a", "b", "d", "d/e", "f"}
 	isDir := map[string]bool{"d": true}
-	t := &treeFS{}
+	t := &vh_treeFS{}
 	firstOf := map[int]string{}
 	dataOf := map[string][]byte{}
 	ng := 0
 	for _, p := range paths {
-		e := &treeEnt{path: p, isDir: isDir[p]}
+		e := &vh_treeEnt{path: p, isDir: isDir[p]}
 		if !e.isDir {
 			g := v.Choose("group", ng+1)
 			if g == ng {
@@ -225,11 +225,11 @@ func VH_C11_send() {
 		}
 	}
 	ctx := context.Background()
-	snd, rcv := newStreamPair(ctx, 256)
+	snd, rcv := vh_newStreamPair(ctx, 256)
 	var sendErr error
 	done := make(chan struct{})
 	go func() {
-		sendErr = Send(ctx, snd, &hidingFS{fs: t, hidden: hidden}, nil)
+		sendErr = Send(ctx, snd, &vh_hidingFS{fs: t, hidden: hidden}, nil)
 		snd.CloseSend()
 		close(done)
 	}()
